@@ -804,6 +804,25 @@ func runOneCS(c *core.Ctx) {
 		}
 		c.CountFuncs(1)
 		pts := acquisitionPoints(c, fn, 0)
+		// a private method without an acquisition of its own is part of its callers'
+		// critical sections — provided every caller holds a lock when calling it
+		if len(pts) == 0 && !isExported(fn) {
+			sites, held := 0, 0
+			for _, caller := range libFuncs(c) {
+				hc := heldAtCalls(caller)
+				for _, site := range callsTo(caller, fn) {
+					sites++
+					for _, h := range hc {
+						if h.call == site && len(h.locks) > 0 {
+							held++
+						}
+					}
+				}
+			}
+			c.Check(sites > 0 && held == sites, guardProps(t), fname(c, fn), "critical-sections", P.Pos(fn.Pos()), fmt.Sprintf("no acquisition of its own; all %d call site(s) hold a lock: it runs inside the caller's critical section", sites),
+				fmt.Sprintf("the method touches guarded state without acquiring the lock, and only %d of its %d call sites hold one", held, sites))
+			continue
+		}
 		// two acquisitions on one path (or one inside a loop) = two critical sections
 		var twice []string
 		for _, a := range pts {
